@@ -645,6 +645,35 @@ func c13Scripted(r *Run, idx int) {
 		r.Count("scripted_loaded_ttls_checked", 1)
 	}
 	e.lc.Close()
+	// ---- R5b: "admitted as a Set with the TTL the loader returned would be" - a Set made when the loader returned.
+	// A load that takes a while (40-90 ms of real time) returns a TTL; the deadline stored with the value must not
+	// lie before (cache clock at the loader's return) + TTL. Read from the entry itself: no timing in the verdict.
+	{
+		var st2 *internal.Store[int, int64]
+		var tEnd atomic.Int64
+		dur := time.Duration(40+rng.Intn(50)) * time.Millisecond
+		ttl := []time.Duration{30 * time.Millisecond, 5 * time.Second, time.Hour}[rng.Intn(3)]
+		lc2, err := theine.NewBuilder[int, int64](100).Loading(func(ctx context.Context, k int) (theine.Loaded[int64], error) {
+			time.Sleep(dur)
+			tEnd.Store(st2.VerifNowNano())
+			return theine.Loaded[int64]{Value: int64(k), Cost: 1, TTL: ttl}, nil
+		}).Build()
+		if err != nil {
+			r.Broken("build: %v", err)
+			return
+		}
+		st2 = lc2.VerifStore()
+		if _, err := lc2.Get(context.Background(), 5); err == nil {
+			lc2.Wait()
+			for _, en := range st2.VerifSnapshot().Map {
+				if en.Key == 5 && en.Expire < tEnd.Load()+int64(ttl) {
+					fail("loaded-ttl-too-short/counted-from-before-the-loader-returned", fmt.Sprintf("a load that took %v returned TTL %v; the stored deadline %d lies %.1f ms before (cache clock when the loader returned) + TTL = %d", dur, ttl, en.Expire, float64(tEnd.Load()+int64(ttl)-en.Expire)/1e6, tEnd.Load()+int64(ttl)), nil)
+				}
+			}
+			r.Count("scripted_slow_load_deadlines_checked", 1)
+		}
+		lc2.Close()
+	}
 	// ---- R6: leader of a failing load parked before singleflight clean-up
 	for _, outcome := range []string{"error", "panic", "goexit"} {
 		var nth atomic.Int64
